@@ -8,6 +8,7 @@ import Driver.PoolMulti
 import Driver.Rewards
 import Driver.Consensus
 import Driver.Codec
+import Driver.CodecJson
 import Driver.Wallet
 import Driver.Genesis
 import Driver.Verify
@@ -30,6 +31,8 @@ import Driver.LedgerNode
 import Driver.VdbCache
 import Driver.Translated
 import Driver.PeerDesc
+import Driver.Accept
+import Driver.CodecRlpTyped
 /-
 One line per handler object. The first handler that understands a line answers it.
 -/
@@ -52,6 +55,7 @@ def registry : List Obj := [
   pureObj pureMverify,
   pureObj pureAddMomentum,
   pureObj pureCodec,
+  pureObj pureCodecJson,
   pureObj pureWallet,
   walletSeqObj,
   pureObj pureGenesis,
@@ -76,7 +80,9 @@ def registry : List Obj := [
   mkObj ({} : PmSt) pmStep,
   ledgerNodeObj,
   vcObj,
-  pureObj purePeerDesc
+  pureObj purePeerDesc,
+  pureObj pureAccept,
+  pureObj pureRlpTyped
 ]
 
 end ZV.Driver
